@@ -80,12 +80,13 @@ class C01(Prop):
     title = "Safe evaluator is confined to its allow-list, total, and resource-bounded"
     extractors = ["E1"]
     fixed_prefix = 2
-    quick_budget = 260
+    quick_budget = 230
     thorough_budget = 10000
     quick_deadline_s = 100
     thorough_deadline_s = 800
     all_branches = ["o:ok", "o:fail-ros", "o:fail-guard", "d:tool", "d:literal", "d:keyword", "d:compare", "d:math",
-                    "latched", "too-long", "b:within", "b:small-pow", "b:exceeds", "forced"]
+                    "latched", "too-long", "b:within", "b:small-pow", "b:exceeds", "forced", "dg:text:ok", "dg:text:fail",
+                    "cdg:returned"]
     assumptions = [
         "CPython's parser, `str.lower/strip`, `json.loads` and `ast.literal_eval` are environment: their outcome on "
         "each input string is computed by CPython and handed to the model",
@@ -111,6 +112,7 @@ class C01(Prop):
         self.fn_names = [k for k, v in sf.items() if callable(v)] or ["abs"]
         self.const_names = [k for k, v in sf.items() if not callable(v)] or ["pi"]
         self.max_len = self.facts.get("max_len") or 10000
+        self.allow_names = set(sf)
 
     def extract(self, ctx):
         f, changed = e1.run()
@@ -137,13 +139,57 @@ class C01(Prop):
             elif k < 0.86:
                 src = rng.choice(["[1, 2]", "[t0]", "{\"a\": [true]}", "[True, (1,)]", "{1: 2}", "[", " [ ] "])
                 lines.append(mito.met_line(rng.choice(["auto", "transform"]), src))
-            elif k < 0.90:
+            elif k < 0.88:
                 lines.append(f"repair {rng.choice([1, 1, 3, 0])} {rng.choice([2, 10, 1])}")
+            elif k < 0.93:
+                lines.append(mito.dg_line(mito.gen_tracer(rng, depth, "any", False)))
             else:
                 e = mito.gen_concrete(rng, 3, self.fn_names, self.const_names)
                 if mito.cheap(e):
                     lines.append(mito.cmet_line(rng.choice(["auto", "math", "logic", "transform", "tool"]), e))
         return {"lines": lines, "note": "tracer"}
+
+    LEGACY = [("10**5000", True), ("10**4299", False), ("10**4300", True), ("[10**5000]", True), ("-10**5000", True),
+              ("(10**5000, 1)", True), ("2 + 2", False), ("1/0", False), ("10**5000 // 10**4990", False),
+              ("factorial(2000)", True), ("2**20000", True), ("float(10**300)", False), ("'a' * 5000", False),
+              ("max(10**5000, 1)", True), ("10**5000 > 1", False), ("", False), ("pi", False), ("[]", False),
+              ("9" * 4300, False), ("9" * 4301, False), ("int('9' * 4301)", False)]
+
+    def _registry_case(self, rng, depth):
+        """registration histories: use a tool, re-register another body under the same name / remove it / clear the
+        registry / move to another engine, use again — the body that runs must be the one registered NOW; tool bodies
+        raise exceptions of many kinds"""
+        lines = mito.header(rng, self.facts, silent=rng.random() < 0.7, ros=(1000, 1),
+                            allowed=None if rng.random() < 0.7 else rng.sample(mito.CAPS, 3))
+        names = rng.sample(["tool1", "Calc", "get_x", "f0", "k"], rng.choice([1, 2, 2, 3]))
+        ver = {n: 0 for n in names}
+        live = set()
+
+        def call(n):
+            src = f"{n}({', '.join(mito.gen_tracer(rng, 1, 'any', False) for _ in range(rng.choice([0, 1, 2])))})"
+            return mito.met_line(rng.choice(["auto", "tool", "auto"]), src)
+        for _ in range(rng.choice([6, 9, 12, 16])):
+            n = rng.choice(names)
+            k = rng.random()
+            if k < 0.30 or n not in live and k < 0.5:
+                ver[n] += 1
+                exc = rng.choice(mito.EXC_KINDS) if rng.random() < 0.35 else None
+                lines.append(mito.tool_line(n, rng.sample(mito.CAPS, rng.choice([0, 0, 1])), ver[n], exc))
+                live.add(n)
+            elif k < 0.40:
+                lines.append(f"untool {mito.hexs(n)}")
+                live.discard(n)
+            elif k < 0.44:
+                lines.append("cleartools")
+                live.clear()
+            elif k < 0.50:
+                lines.append(mito.header(rng, self.facts, silent=True, ros=(1000, 1))[1])   # another engine
+                live.clear()
+            else:
+                lines.append(call(n))
+                if rng.random() < 0.5:
+                    lines.append(call(n))
+        return {"lines": lines, "note": "registry"}
 
     def _history_case(self, rng, depth):
         """the same text through every pathway in several orders, twice, on the same and on fresh engines: results
@@ -176,6 +222,15 @@ class C01(Prop):
         for i in range(n):
             if i % 6 == 3:
                 yield self._history_case(rng, rng.choice([1, 2, 3]))
+                continue
+            if i % 6 == 5:
+                yield self._registry_case(rng, 2)
+                continue
+            if i % 30 == 8:
+                lines = mito.header(rng, self.facts, silent=True)
+                for (src, sr) in rng.sample(self.LEGACY, 6):
+                    lines.append(mito.cdg_line(src, sr))
+                yield {"lines": lines, "note": "legacy entry point"}
                 continue
             if i % 40 == 7:
                 e = rng.choice(["2**10 + 3*4", "12345678901234567890 * 98765432109876543210 + 1", "3 + 4 * 5",
@@ -228,6 +283,28 @@ class C01(Prop):
                 cases.append({"lines": lines, "note": "odd tool name"})
         spaces.append({"name": f"{len(mito.ODD_TOOLNAMES)} odd tool names (regex-special, empty, long, non-ASCII, "
                                "equal to allow-listed functions) x texts x auto-detection", "cases": cases})
+        # legacy entry point digest_glucose (and the agent's "calculate ..." prompt) on values that do / do not render
+        cases = []
+        lines = mito.header(rng, facts, silent=True)
+        for (src, sr) in self.LEGACY:
+            lines.append(mito.cdg_line(src, sr))
+        cases.append({"lines": lines, "note": "legacy entry point"})
+        for silent in (True, False):
+            lines = mito.header(rng, facts, tools=[("tool1", [])], silent=silent, ros=(1000, 1))
+            for src in ["t0 + t1", "f0(t0, k=t1)", "zz", "t0 +", "[t0, (t1,)]", "t0 < t1", "tool1(t0)", "'\ud800'",
+                        "t0 if t1 else t2", "x" * (self.max_len + 1), "true"]:
+                lines.append(mito.dg_line(src))
+            cases.append({"lines": lines, "note": "legacy entry point (tracers)"})
+        spaces.append({"name": "digest_glucose / agent calculate path on values whose str() raises or not", "cases": cases})
+        # every kind of exception out of a tool body x pathway selection
+        cases = []
+        for kind in mito.EXC_KINDS:
+            lines = mito.header(rng, facts, silent=True, ros=(1000, 1))
+            lines.append(mito.tool_line("tool1", [], 1, kind))
+            lines += [mito.met_line("auto", "tool1(t0)"), mito.met_line("tool", "tool1()"),
+                      mito.met_line("auto", "tool1(t0, k=t1)"), mito.met_line("math", "t0 + t1")]
+            cases.append({"lines": lines, "note": "tool raises " + kind})
+        spaces.append({"name": f"{len(mito.EXC_KINDS)} kinds of exception raised by a tool body", "cases": cases})
         # raw strings
         cases = []
         for (s, safe) in mito.raw_strings(self.max_len):
@@ -270,14 +347,29 @@ class C01(Prop):
     # --- oracle: the property text on what the real code did ---------------------------------------------------
     def oracle(self, case, obs, extra):
         out = []
-        tools, allowed = {}, None
+        tools, allowed, names, vers = {}, None, set(), {}
         for i, (line, o, x) in enumerate(zip(case["lines"], obs, extra)):
             t = line.split(" ")
-            if t[0] == "cfg":
-                tools, allowed = {}, (None if t[9] == "none" else set(mito.unhexs(c) if False else c for c in
-                                                                      ([] if t[9] == "-" else t[9].split(","))))
+            if t[0] == "tables":
+                names = set(mito.unhexs(h) for h in t[5].split(",")) if t[5] != "-" else set()
+            elif t[0] == "cfg":
+                tools, vers, allowed = {}, {}, (None if t[9] == "none" else set([] if t[9] == "-" else t[9].split(",")))
             elif t[0] == "tool":
                 tools[mito.unhexs(t[1])] = set([] if t[3] == "-" else t[3].split(","))
+                vers[mito.unhexs(t[1])] = int(t[4][1:].split(":")[0]) if len(t) > 4 else 0
+            elif t[0] == "untool":
+                tools.pop(mito.unhexs(t[1]), None)
+                vers.pop(mito.unhexs(t[1]), None)
+            elif t[0] == "cleartools":
+                tools, vers = {}, {}
+            elif t[0] in ("dg", "cdg"):
+                x = x or {}
+                if not o.startswith(("text:", "returned")):
+                    out.append(Violation("never_raises", "digest_glucose returns a string",
+                                         o.split(" ")[0] + " " + str(x.get("raised")), i))
+                if str(x.get("agent", "")).startswith("raised"):
+                    out.append(Violation("never_raises", "BioAgent.express('calculate …') returns an ActionProtein",
+                                         x["agent"], i))
             elif t[0] == "bound":
                 if o != "returned":
                     out.append(Violation("returns_within_bound", "metabolize(timeout_seconds=0.5) returns within 6 s "
@@ -323,9 +415,17 @@ class C01(Prop):
                                     and body.func.id in tools):
                                 out.append(Violation("only_registered_tools", "callee is the name of a registered tool",
                                                      src[:60], i))
+                        defined = (names if t[0] == "met" else self.allow_names) | \
+                                  ({"true", "false"} if pathway == "logic" else set())
                         for r in roots:
                             for n in must_visit(r):
                                 cn = type(n).__name__
+                                nm = n.id if cn == "Name" else (n.func.id if cn == "Call" and isinstance(n.func, ast.Name)
+                                                                else None)
+                                if nm is not None and nm not in defined:
+                                    out.append(Violation("no_lookup_outside_allow_list", f"failure ({nm!r} is not an "
+                                                         f"allow-listed name on the {pathway} pathway)", o[:80], i))
+                                    break
                                 if cn not in ALLOWED_NODE_CLASSES:
                                     out.append(Violation("no_forbidden_construct", f"failure ({cn} is evaluated)",
                                                          o[:80], i))
@@ -341,10 +441,15 @@ class C01(Prop):
                     if len(execs) > 1 or (execs and pathway != "tool"):
                         out.append(Violation("only_registered_tools", "at most one tool body, on the tool pathway",
                                              str(execs)[:120], i))
-                    for a in execs:
-                        nm = mito.unhexs(a.split(":")[1])
+                    for (nm, ver) in (x.get("tools_run") or []):
                         if nm not in tools:
-                            out.append(Violation("only_registered_tools", "a registered tool", nm, i))
+                            out.append(Violation("only_registered_tools", "a tool that is registered now", nm, i))
+                        elif vers.get(nm, 0) != ver:
+                            out.append(Violation("only_registered_tools", f"the body registered now under {nm!r} "
+                                                 f"(version {vers.get(nm, 0)})", f"version {ver} ran", i))
+                        elif allowed is not None and not tools[nm] <= allowed:
+                            out.append(Violation("only_registered_tools", "a tool within the allowed capabilities",
+                                                 f"{nm} needs {sorted(tools[nm])}", i))
         if out and "history" in case.get("note", ""):
             self._fresh = True
         return out
